@@ -187,8 +187,27 @@ L5 = [H("utf8::l5_null_slice_n%d" % n, "ext", "quick" if n <= 4 else "thorough",
 L5W = [H("utf8::l5_null_slice_with_n%d" % n, "ext", "quick" if n in (3, 5) else "thorough", 1800, "%d bytes, each any value 0..=255, through <() as Parse>::parse_slice_with with both option flags symbolic" % n, "n=%d, unwind 7" % n, gb=3.0) for n in range(2, 6)]
 _EPS = ["parse_str", "parse_str_with", "parse_infallible_utf8", "parse_utf8_infallible_with", "parse_utf8", "parse_utf8_with", "parse_infallible", "parse_infallible_with", "parse", "parse_with"]
 EP = [H("utf8::ep_null_" + e_, "ext", "quick", 900, "5 ASCII bytes (each 0..=127) through <() as Parse>::%s; both option flags symbolic" % e_, "n=5, unwind 7") for e_ in _EPS]
-EPS = [H("utf8::ep_string_" + e_, "ext", "quick", 900, "the document \"\\uXXXX\" with all four hex digit values and their case symbolic (every code unit) through <SmallString as Parse>::%s; both option flags symbolic" % e_, "unwind 10", gb=3.0) for e_ in _EPS]
+EPS = [H("parse::verif::ep_options_reach_the_parser_unchanged", "in", "quick", 900, "entry point symbolic over all twelve provided methods of Parse (string, slice, char/decoded-char iterators, with and without options); both option flags symbolic; one ASCII input character", "unwind 4")]
 P0 = [H("parse::verif::p0_position_advances_by_source_length", "in", "quick", 600, "3 characters (any scalar values) each with an arbitrary SOURCE length 1..=4 (DecodedChar::new), base offset", "unwind 5")]
+
+
+def DRV(tier, max_n, prefix_n, cap):
+	h = H("drv::documents_n%d_prefix%d" % (max_n, prefix_n), "mir", tier, cap,
+	      "every character array of length <= %d (each character any Unicode scalar value except the backslash), and every array of %d such characters appended to each of 18 concrete structural prefixes (drv/drvcheck.py PREFIXES); "
+	      "z3 decides the feasibility of every branch on a character and provides the counter-example characters" % (max_n, prefix_n),
+	      "N <= %d, prefix continuations <= %d; no escapes (no backslash); strict options" % (max_n, prefix_n), gb=2.0)
+	h["max_n"] = max_n
+	h["prefix_n"] = prefix_n
+	return h
+
+
+DRVQ = [DRV("quick", 7, 5, 1500)]
+DRVT = [DRV("thorough", 9, 7, 7200)]
+_DRV_FUNCS = ["<Value as Parse>::parse_in (the explicit-stack driver loop, from MIR)", "<Fragment as Parse>::parse_in (first-character dispatch, from MIR)",
+              "Fragment::value_or_parse, stack_context, From<Value> for Fragment, the closures (from MIR)"]
+_DRV_ASSUME = ["driver check: the callees of src/parse/value.rs (Parser primitives, the eight parser units, Vec/Option/Try/Meta/Object::push) are replaced by contract models written from the same reference automata the Kani unit harnesses verify the real units against; "
+               "the MIR interpreter and the models are cross-validated on every run against the REAL parser on the repository's own test documents (tests/inputs, those without escapes)",
+               "driver check: positions are character indices on both sides (the driver only passes positions around); byte offsets are decided at unit level (p0_position_advances_by_source_length)"]
 
 
 # ---------------------------------------------------------------------------
@@ -227,7 +246,7 @@ PROPS["C01"] = dict(
 	functions=_PARSE_FUNCS, bounds="literals: <= 6 chars; numbers: <= 6 (quick) / 8 (thorough) chars; strings: <= 4 (quick) / 5 (thorough) fully symbolic chars, 6-8 chars over a 12-character alphabet (thorough); fragments: <= 4 fully symbolic chars plus shaped key inputs; byte input: <= 5 bytes",
 	outside=_OUTSIDE_PARSE, stubs=[STUB_GROW], assumptions=_PARSE_ASSUME,
 	harnesses=L1 + L2 + pick(L3, names("l3_number_n", range(0, 7)), "rest") + pick(L4, names("l4_string_n", range(0, 5)), "rest")
-	+ pick(L4A, [], "rest") + S1 + pick(L5, names("l5_null_slice_n", (1, 3, 5)), "rest") + L5W + EP,
+	+ pick(L4A, [], "rest") + S1 + pick(L5, names("l5_null_slice_n", (1, 3, 5)), "rest") + L5W + EP + EPS,
 )
 
 PROPS["C02"] = dict(
@@ -315,7 +334,7 @@ PROPS["C10"] = dict(
 
 C14O = [H(_OV + "c14_index_independence_" + p_, "in", "quick", 2400, (_OBJ % p_) + " vs. the same entries with an EMPTY index, and vs. the same keys with other symbolic values", "unwind 10", gb=6.0) for p_ in ("empty", "a", "aa", "ab")] + \
        [H(_OV + "c14_clone_" + p_, "in", "quick", 2400, _OBJ % p_, "unwind 6", gb=6.0) for p_ in ("a", "aa", "ab")] + \
-       [H(_OV + "c14_prefix_" + p_, "in", "quick", 1800, (_OBJ % p_) + " vs. its strict prefix (one entry fewer)", "unwind 10", gb=5.0) for p_ in ("a", "ab", "aa")]
+       [H(_OV + "c14_prefix_" + p_, "in", "quick", 1800, (_OBJ % p_) + " vs. its strict prefix (one entry fewer)", "unwind 10", gb=5.0) for p_ in ("a",)]
 C14E = [H("order::c14_laws_scalars", "ext", "quick", 1800, "three scalars: null / any boolean / number from 6 spellings / string of 0..=2 arbitrary characters", "unwind 10", gb=4.0),
         H("order::c14_laws_value_slices", "ext", "quick", 2400, "three [Value] slices of length 0..=2 over scalars with strings of <= 1 arbitrary character", "unwind 10", gb=6.0),
         H("order::c14_laws_entries", "ext", "quick", 1800, "three entries: keys of 0..=2 arbitrary characters, values null / boolean / number", "unwind 10", gb=4.0),
@@ -335,9 +354,9 @@ PROPS["C14"] = dict(
 C11H = [H(_OV + "c11_array_iter_mapped_k%d" % k, "in", "quick", 900, "%d items; code map of 16 entries with arbitrary volumes except the children's roots, whose volumes are symbolic 1..=3; container offset 0..=2" % k, "k=%d, unwind 18" % k) for k in range(0, 4)] + \
        [H(_OV + "c11_object_mapped_" + p_, "in", "quick", 2400, "object with key-equality pattern '%s' (key identities symbolic); value volumes symbolic 1..=3; container offset 0..=1; query key symbolic (present / duplicated / absent)" % p_, "unwind 18", gb=6.0) for p_ in ("empty", "a", "aa", "ab", "aaa", "aba", "abb", "abc")]
 
-C11F = [H("frag::c11_get_fragment_leaf", "ext", "quick", 600, "a leaf value of symbolic kind (null / boolean / empty array / empty object), index symbolic < 2^30", "unwind 4")] + \
-       [H("frag::c11_get_array_fragment_k%d" % k, "ext", "quick", 900, "%d items, each a leaf of symbolic kind (null / boolean / empty array / empty object), on the stack; index symbolic < 2^30" % k, "k=%d, unwind 6" % k) for k in range(0, 5)] + \
-       [H("frag::c11_entry_get_fragment", "ext", "quick", 600, "entry with key '' or 'k' and a leaf value of symbolic kind; index symbolic", "unwind 4")]
+C11F = [H("frag::c11_get_fragment_leaf_" + k_, "ext", "quick", 600, "a leaf value (%s), index symbolic < 2^30" % d_, "unwind 4") for k_, d_ in (("b", "any boolean"), ("a", "empty array"))] + \
+       [H("frag::c11_get_array_fragment_" + k_, "ext", "quick", 900, "items '%s' on the stack (b boolean with symbolic payload, n null, a empty array, o empty object); index symbolic < 2^30" % k_, "unwind 6") for k_ in ("empty", "a", "bab", "nab", "aaba")] + \
+       [H("frag::c11_entry_get_fragment_" + k_, "ext", "quick", 600, "entry with key 'k' and a leaf value (%s); index symbolic" % d_, "unwind 4") for k_, d_ in (("b", "any boolean"), ("a", "empty array"))]
 
 C11F = C11F + [H(_OV + "c11_vec_try_from_json_reports_the_offending_fragment", "in", "quick", 1800, "Vec<bool>::try_from_json_at on a heap array of 3 scalars; code-map volumes of the items symbolic 1..=3; wrong-kind item at a symbolic position or nowhere; container offset 0..=2", "unwind 18", gb=4.0)]
 
@@ -355,7 +374,6 @@ PROPS["C11"] = dict(
 # ---------------------------------------------------------------------------
 C08H = C08S + \
        [H("print::c08_compact_%s_k%d" % (t, k), "ext", "quick", 900, "Options::compact() (concrete preset); %d children each one symbolic ASCII byte; keys any Unicode scalar value; depth 0..=2" % k, "k=%d, unwind 6" % k) for t in ("array", "object") for k in (0, 2)] + \
-       [H("print::c08_string_from_value_is_compact", "ext", "quick", 1200, "null / true / a one-character string (any Unicode scalar value) through String::from(Value); probe index symbolic", "unwind 10", gb=3.0)] + \
        [H("print::c08_scalar_" + t, "ext", "quick", 1200, "scalar %s; option record fully symbolic (fields 0..=3, all limits)" % d, "unwind %d" % u, gb=3.0)
         for t, d, u in (("null", "null", 7), ("bool", "any boolean", 7), ("number", "number from 8 spellings of <= 8 characters", 10), ("string", "one-character string (any Unicode scalar value)", 8))]
 
@@ -391,3 +409,26 @@ PROPS["C04"]["functions"] += ["print::pre_compute_array_size / pre_compute_objec
 # C02: key lookups on a parsed object return the entries carrying the key, in source order (index positions stay sorted)
 PROPS["C02"]["harnesses"] = PROPS["C02"]["harnesses"] + pick(I1, ["i1_indexes_2", "i1_indexes_3", "i1_indexes_4"])
 PROPS["C13"]["harnesses"] = PROPS["C13"]["harnesses"] + pick(C08H, ["c08_scalar_null", "c08_scalar_bool", "c08_scalar_number", "c08_scalar_string"])
+
+# ---------------------------------------------------------------------------
+# Assertions labelled for another property that ALSO decide this one (shared
+# harness families): a failed check with one of these labels is a violation of
+# the property too.
+PROPS["C04"]["also"] = ["C08:string-literal-escaping", "C08:display-is-the-compact-token", "C08:compact-print-is-the-compact-token",
+                        "C13:options-never-reach-scalars", "C02:number-spelling-verbatim", "C02:literal-value",
+                        "C01:number-accepted-when-rfc8259-lexeme-plus-follow", "C01:literal-accepted-when-spelled-exactly"]
+PROPS["C09"]["also"] = ["C08:string-literal-escaping"]
+PROPS["C10"]["also"] = ["C09:members-sorted-by-utf16-code-units", "C06:index-canonical-after-rebuild", "C06:clear-empties-the-index",
+                        "C06:stored-hashes-match-representatives", "C06:index-canonical-after-append", "C06:insert-reports-whether-the-key-is-new"]
+PROPS["C13"]["also"] = ["C08:compact-preset-never-expands"]
+# where a value ends decides where the enclosing object entry (closed by the driver at the current position) ends
+PROPS["C05"]["also"] = ["C01:closing-brace-consumed", "C01:closing-bracket-consumed", "C01:empty-array-consumes-through-bracket",
+                        "C01:empty-object-consumes-through-brace", "C01:number-consumes-exactly-its-lexeme",
+                        "C01:string-consumes-exactly-its-characters", "C01:literal-consumes-exactly-its-characters"]
+
+# ---------------------------------------------------------------------------
+# the driver loop (src/parse/value.rs) by symbolic execution of its MIR (drv/): whole documents
+for _p in ("C01", "C02", "C05", "C07"):
+	PROPS[_p]["harnesses"] = PROPS[_p]["harnesses"] + DRVQ + DRVT
+	PROPS[_p]["functions"] = PROPS[_p]["functions"] + _DRV_FUNCS
+	PROPS[_p]["assumptions"] = PROPS[_p]["assumptions"] + _DRV_ASSUME
